@@ -91,18 +91,18 @@ Print Assumptions C02_volume_nospace.
 
 (* a file written by SetSize + ChecksumAndAssemble (header/body checksums, size fields, large
    attribute) passes the reader's per-file checks; stated for file types without sections *)
-Theorem C02_created_file_valid : forall vfv h ext attr data,
+Theorem C02_created_file_valid : forall vfv venc dec h ext attr data,
   zlen (f_guid h) = 16 -> 0 <= ext < 2 ^ 64 ->
   ext = file_hlen attr + zlen data -> attr_large attr = (16777215 <=? ext) ->
   supported_file (f_type h) = false ->
-  v_file vfv (snd (checksum_and_assemble h ext attr data)) = true.
+  v_file vfv venc dec (snd (checksum_and_assemble h ext attr data)) = true.
 Proof. exact caa_v_file. Qed.
 Print Assumptions C02_created_file_valid.
 
 (* pad files (alignment gaps, remove_pad) are valid files and cannot be mistaken for free space *)
-Theorem C02_pad_file_valid : forall vfv pol size b,
+Theorem C02_pad_file_valid : forall vfv venc dec pol size b,
   create_pad_file pol size = Ok b -> size < 2 ^ 64 ->
-  v_file vfv b = true /\ all_eq pol (sub 0 24 b) = false /\ zlen b = size.
+  v_file vfv venc dec b = true /\ all_eq pol (sub 0 24 b) = false /\ zlen b = size.
 Proof. exact pad_file_valid. Qed.
 Print Assumptions C02_pad_file_valid.
 
@@ -118,9 +118,9 @@ Print Assumptions C02_volume_header_checksum.
 
 (* C02_valid_after_edits (the goal; NOT proved):
 
-     forall img ops out, valid_image d img = true ->
+     forall img ops out, valid_image dec d img = true ->
        edit_and_save dec enc u2s s2u nvar d ops img = Ok out ->
-       valid_image d out = true /\ zlen out = zlen img.
+       valid_image dec d out = true /\ zlen out = zlen img.
 
    Proved below is its volume-assembly core, C02_valid_after_edits_partial: when Assemble rebuilds
    a non-resizable volume from files that are individually valid for the reader ([fok]: per-file
@@ -137,15 +137,15 @@ Print Assumptions C02_volume_header_checksum.
    (C02_volume_length_resizable, power-of-two block sizes), not the file walk; (4) the composition
    section -> file -> nested volume -> region ([v_region] over copy_elems) and the fuel of valid_fv.
    These are covered on the implementation by the oracle p_c02 only. *)
-Theorem C02_valid_after_edits_partial : forall vfv pol ffs3 h buf files h' b,
+Theorem C02_valid_after_edits_partial : forall vfv venc dec pol ffs3 h buf files h' b,
   asm_vol pol ffs3 h buf files = Ok (h', b) ->
   vol_verbatim h files = false -> v_resizable h = false ->
   60 <= v_dataoff h -> v_dataoff h mod 8 = 0 -> 52 <= v_hdrlen h ->
   (pol = 0 \/ pol = 255) -> v_length h < 2 ^ 64 ->
-  Forall (fun f => fok vfv pol (node_buf f) = true /\ rd 19 1 (node_buf f) = node_attr f) files ->
+  Forall (fun f => fok vfv venc dec pol (node_buf f) = true /\ rd 19 1 (node_buf f) = node_attr f) files ->
   zlen b = v_length h /\ v_length h' = v_length h /\
   sum16 (sub 0 (v_hdrlen h) b) = 0 /\
-  forall fuel, (2 * length files < fuel)%nat -> v_files vfv fuel pol b (v_dataoff h) = true.
+  forall fuel, (2 * length files < fuel)%nat -> v_files vfv venc dec fuel pol b (v_dataoff h) = true.
 Proof. exact asm_vol_valid_core. Qed.
 Print Assumptions C02_valid_after_edits_partial.
 
@@ -161,28 +161,28 @@ Definition tiny_guid : bytes := [1; 0; 0; 0; 0; 171; 0; 0; 0; 0; 0; 0; 0; 0; 0; 
 Definition save_of (ops : list op) : outcome bytes :=
   edit_and_save no_codec no_codec id_bytes id_bytes no_nvar 8 ops tiny_image.
 Definition valid_out (o : outcome bytes) : bool :=
-  match o with Ok out => valid_image 8 out && (zlen out =? zlen tiny_image) | _ => false end.
+  match o with Ok out => valid_image no_codec 8 out && (zlen out =? zlen tiny_image) | _ => false end.
 
-Example ex_input_valid : valid_image 8 tiny_image = true.
+Example ex_input_valid : valid_image no_codec 8 tiny_image = true.
 Proof. vm_compute. reflexivity. Qed.
 (* a flipped header byte is noticed *)
-Example ex_reader_rejects : valid_image 8 (splice 90 [66] tiny_image) = false.
+Example ex_reader_rejects : valid_image no_codec 8 (splice 90 [66] tiny_image) = false.
 Proof. vm_compute. reflexivity. Qed.
-Example ex_remove_valid : valid_out (save_of [ORemove false (guid_string tiny_guid)]) = true.
+Example ex_remove_valid : valid_out (save_of [ORemove false (TLit (guid_string tiny_guid))]) = true.
 Proof. vm_compute. reflexivity. Qed.
-Example ex_remove_pad_valid : valid_out (save_of [ORemove true (guid_string tiny_guid)]) = true.
+Example ex_remove_pad_valid : valid_out (save_of [ORemove true (TLit (guid_string tiny_guid))]) = true.
 Proof. vm_compute. reflexivity. Qed.
 (* a file to insert: the image's own file with another first GUID byte, header checksum adjusted *)
 Definition tiny_file : bytes := splice 16 [255] (splice 0 [3] (sub 72 28 tiny_image)).
 Example ex_insert_valid :
-  valid_out (save_of [OInsert IAfter (guid_string tiny_guid) tiny_file]) = true.
+  valid_out (save_of [OInsert IAfter (TLit (guid_string tiny_guid)) tiny_file]) = true.
 Proof. vm_compute. reflexivity. Qed.
-Example ex_insert_changes : match save_of [OInsert IAfter (guid_string tiny_guid) tiny_file] with
+Example ex_insert_changes : match save_of [OInsert IAfter (TLit (guid_string tiny_guid)) tiny_file] with
                             | Ok out => negb (bytes_eqb out tiny_image) | _ => false end = true.
 Proof. vm_compute. reflexivity. Qed.
 (* five more files do not fit 192 bytes: an error, no bytes *)
 Example ex_nospace :
-  is_ok (save_of (repeat (OInsert IEnd (guid_string tiny_guid) tiny_file) 5)) = false.
+  is_ok (save_of (repeat (OInsert IEnd (TLit (guid_string tiny_guid)) tiny_file) 5)) = false.
 Proof. vm_compute. reflexivity. Qed.
 (* placement arithmetic on a concrete case: a file asking for 16-byte data alignment after offset 96:
    data at 128 would leave an 8-byte gap, too small for a pad file, so it moves on to 144 *)
